@@ -797,7 +797,7 @@ std::string gen(Rng& r, long, const Args& a) {
           os << r.pick(cmps) << " " << dn << " " << (self ? dn : (dIsA ? "b" : "a"));
         } else if (kind < 30) {                             // x CMP built-in: often the variable's own value +-1
           typed(ty, text, Y, r.coin(1, 5));
-          if (r.coin() && D < (mpz_class(1) << 63)) { ty = "i64"; mpz_class v = D + (long)r.below(3) - 1; if (v < 0) v = 0; text = v.get_str(10); }
+          if (r.coin() && D < (mpz_class(1) << 63)) { ty = "i64"; mpz_class v = D + (long)r.below(3) - 1; if (v < 0) v = 0; if (v >= (mpz_class(1) << 63)) ty = "u64"; text = v.get_str(10); }
           else if (r.coin()) {   // the low 64 bits of a wide value (+-1): equal there, different above
             ty = "u64"; mpz_class v = (D + (long)r.below(3) + W - 1) % (mpz_class(1) << 64); text = v.get_str(10);
           }
